@@ -13,6 +13,11 @@ THEOREMS = ['Tbox.C11.C11_gating', 'Tbox.C11.C11_hooks_of_tree', 'Tbox.C11.C11_b
             'Tbox.C11.Arena.C11_scripts_gating', 'Tbox.C11.Arena.C11_scripts_balanced', 'Tbox.C11.Arena.C11_scripts_busy_untouched',
             'Tbox.C11.Arena.C11_reentrant_cleanup_counterexample', 'Tbox.C11.Arena.C11_reentrant_cleanup_repaired',
             'Tbox.C11.Arena.C11_reentrant_init_counterexample', 'Tbox.C11.Arena.C11_throwing_hook_counterexample',
+            'Tbox.C11.Arena.C11_throwing_hook_repaired', 'Tbox.C11.Arena.C11_throwing_start_counterexample',
+            'Tbox.C11.Arena.C11_throw_through_script_repaired', 'Tbox.C11.Arena.C11_throwing_teardown_counterexample',
+            'Tbox.C11.Arena.C11_teardown_throws_only_from_teardown_hooks', 'Tbox.C11.Arena.C11_scripts_refused_noop',
+            'Tbox.C11.Arena.C11_scripts_own_subtree_counterexample', 'Tbox.C11.Arena.C11_add_no_cycle',
+            'Tbox.C11.Arena.C11_add_cycle_counterexample',
             'Tbox.C11.Arena.C11_script_stop_parent_from_onStart', 'Tbox.C11.Arena.C11_script_add_from_parent_onInit',
             'Tbox.C11.Arena.C11_script_add_from_sibling_onInit', 'Tbox.C11.Arena.C11_scripts_nesting_counterexample',
             'Tbox.C11.C11_main_is_history', 'Tbox.C11.C11_main_balanced', 'Tbox.C11.C11_main_counterexample_unrepaired', 'Tbox.C11.C11_balanced_counterexample_unrepaired',
@@ -35,8 +40,10 @@ TRUSTED = ['model lean/TboxModel/C11/Model.lean is hand-written from modules/mai
            'files; tied by process scenarios with the real Main()/Start()/Stop(), ContextImp, Log, Args (ContextImp::start() fails only '
            'through -Wl,--wrap: its body cannot fail)',
            'module names are "" or "m<id>" (unique): name clashes other than two unnamed siblings are not generated']
-ASSUMPTIONS = ['user hooks do not throw (C11_throwing_hook_counterexample); hooks that call lifecycle functions of the tree keep gating and '
-               'balance (C11_scripts_*), LIFO nesting is stated for trees driven through the root only',
+ASSUMPTIONS = ['onStop/onCleanup hooks do not throw (C11_throwing_teardown_counterexample; ~Module is noexcept); exceptions from onInit/onStart '
+               'are rolled back and passed on (patches/C11-07, C11_scripts_gating/balanced hold for such histories); hooks that call lifecycle '
+               'functions of the tree keep gating and balance (C11_scripts_*), LIFO nesting is stated for trees driven through the root and for '
+               'scripts whose calls are all refused (C11_scripts_refused_noop)',
                'children are only driven through the root (module.h: the parent owns the child after add())',
                'a stop signal that arrives while a user hook runs (no handler installed: the process dies) is outside the property\'s '
                'quantifier; modelled as found (Backend.mainSig), tied by raise(SIGTERM) from probe hooks, not repaired']
@@ -150,11 +157,22 @@ def gen_case(rng):
             del seq[rng.randrange(len(seq))]
     else:
         seq = [rng.choice(CALLS) for _ in range(rng.choice([2, 4, 6, 10]))]
+    if rng.random() < 0.3:   # values in vars() of some modules: toJson() writes "vars" only where there are some
+        for _ in range(rng.randrange(1, 4)):
+            ops.append('vdef m%d %s %d' % (rng.choice(ids), rng.choice(VNAMES), rng.randrange(100)))
+        if rng.random() < 0.3:
+            ops.append('vundef m%d %s' % (rng.choice(ids), rng.choice(VNAMES)))
     for c in seq:
         if rng.random() < 0.15:
             i = rng.choice(ids)
             ops.append('set %d %s %s %s' % (i, b(rng.random() < 0.9), b(rng.random() < 0.7), b(rng.random() < 0.7)))
         ops.append('%s %d' % (c, root))
+        if rng.random() < 0.12:
+            ops.append('json %d' % root)
+    if rng.random() < 0.25:   # self-add, add of the own root / an ancestor (a cycle: refused), then the tree must still work
+        x = rng.choice(ids)
+        ops.append('add %d %d %s' % (x, rng.choice([x, root, root]), b(rng.random() < 0.5)))
+        ops += ['json %d' % root, 'cleanup %d' % root, 'fillinit %d' % root] if rng.random() < 0.5 else ['json %d' % root]
     if rng.random() < 0.1:   # a late add (refused: parent not in kNone) or an add of an owned child
         ops.append('new 900 1 1 1 1')
         ops.append('add %d 900 1' % rng.choice(ids))
@@ -326,6 +344,17 @@ SCRIPT_FIXED = [
     ['new 0 1 1 1 1', 'new 1 1 1 1 1', 'new 2 0 0 1 1', 'add 0 1 1', 'hook 1 i a:0:2:0', 'init 0', 'add 0 2 1', 'cleanup 0', 'destroy 0'],
     ['new 0 1 1 1 1', 'new 1 1 1 1 1', 'new 2 1 1 1 1', 'new 3 1 1 1 1', 'add 0 1 1', 'add 0 2 1', 'add 0 3 1', 'hook 3 i cc:1', 'init 0', 'cleanup 0',
      'destroy 0'],
+    # exceptions crossing several levels and a script: 2's onInit initialises the free-standing tree 5 -> 6 whose leaf throws;
+    # onStart of a grandchild throws below an OPTIONAL child (still propagates); throw after refused calls on the own path
+    ['new 0 1 1 1 1', 'new 1 1 1 1 1', 'new 2 1 1 1 1', 'new 5 0 0 1 1', 'new 6 0 0 1 1', 'add 0 1 1', 'add 0 2 1', 'add 5 6 1', 'hook 2 i ci:5',
+     'hook 6 i x', 'init 0', 'init 0', 'start 0', 'cleanup 0', 'cleanup 5', 'destroy 0', 'destroy 5'],
+    ['new 0 1 1 1 1', 'new 1 1 1 1 1', 'new 2 1 1 1 1', 'new 3 1 1 1 1', 'new 4 1 1 1 1', 'add 0 1 1', 'add 0 2 0', 'add 2 3 1', 'add 0 4 1',
+     'hook 3 s ct:0 cc:2 x', 'init 0', 'start 0', 'json 0', 'start 0', 'stop 0', 'cleanup 0', 'destroy 0'],
+    ['new 0 1 1 1 1', 'new 1 1 1 1 1', 'new 2 1 1 1 1', 'add 0 1 1', 'add 0 2 1', 'hook 0 i x', 'init 0', 'hook 1 i x', 'init 0', 'hook 2 i x',
+     'init 0', 'init 0', 'hook 0 s x', 'start 0', 'hook 1 s x', 'start 0', 'hook 2 s x', 'start 0', 'start 0', 'cleanup 0', 'destroy 0'],
+    # add() of the module itself / of the root of its own tree (cycle: refused), toJson / fillDefaultConfig / destruction afterwards
+    ['new 0 1 1 1 1', 'new 1 1 1 1 1', 'new 2 1 1 1 1', 'add 0 0 1', 'add 0 1 1', 'add 1 2 0', 'add 2 0 1', 'add 1 0 0', 'add 2 2 1', 'json 0',
+     'fillinit 0', 'start 0', 'json 0', 'cleanup 0', 'destroy 0'],
     # malformed scripts: both sides answer bad-op
     ['new 0 1 1 1 1', 'hook 0 i cz:0', 'hook 0 q ci:0', 'hook 5 i ci:0', 'hook 0 i a:0:1', 'hook 0 i ci:x', 'hook 0 i', 'init 0', 'cleanup 0', 'destroy 0'],
 ]
@@ -342,10 +371,50 @@ def gen_forest(rng):
         ops.append('add %d %d %s' % (rng.randrange(5), rng.randrange(5), b(rng.random() < 0.6)))
     for _ in range(rng.randrange(2, 8)):
         ops.append('%s %d' % (rng.choice(CALLS + ['destroy']), rng.randrange(5)))
+    ops.append('json %d' % rng.randrange(5))
     for i in range(5):
         ops.append('cleanup %d' % i)
     for i in range(5):
+        ops.append('json %d' % i)
+    for i in range(5):
         ops.append('destroy %d' % i)
+    return ops
+
+
+def gen_throw_case(rng):
+    """oracle per hook call = ok / fail / throw: one or two modules get an onInit/onStart script that throws (possibly after
+    refused calls on the own path), anywhere in the tree, required or optional; root calls go on after the exception
+    (re-initialise, start again with the script gone), then cleanup x2 and destroy"""
+    n = rng.choice([2, 3, 4, 5, 6, 8])
+    lines, root, ids = gen_tree(rng, n, p_fail=rng.choice([0.0, 0.0, 0.1]))
+    ops = list(lines)
+    parent = {}
+    for l in lines:
+        w = l.split()
+        if w[0] == 'add':
+            parent[int(w[2])] = int(w[1])
+
+    def arm():
+        v = rng.choice(ids)
+        h = rng.choice('iiss')
+        pre = []
+        if rng.random() < 0.3:
+            pre.append('c%s:%d' % (rng.choice(APIS), v))
+        if rng.random() < 0.3 and v in parent:
+            pre.append('c%s:%d' % (rng.choice(APIS), parent[v]))
+        return 'hook %d %s %s' % (v, h, ' '.join(pre + ['x']))
+    for _ in range(rng.choice([1, 1, 2])):
+        ops.append(arm())
+    seq = rng.choice([['init', 'start', 'stop', 'cleanup'], ['init', 'init', 'start', 'start', 'cleanup'],
+                      ['fillinit', 'start', 'init', 'start', 'stop', 'cleanup', 'init', 'start'],
+                      [rng.choice(CALLS) for _ in range(6)]])
+    for c in seq:
+        ops.append('%s %d' % (c, root))
+        if rng.random() < 0.2:
+            ops.append(arm())
+        if rng.random() < 0.1:
+            ops.append('json %d' % root)
+    ops += ['cleanup %d' % root, 'cleanup %d' % root, 'json %d' % root, 'destroy %d' % root]
     return ops
 
 
@@ -500,6 +569,11 @@ def gen(rng, tier):
     yield from SCRIPT_FIXED
     for _ in range(n // 2 if tier == 'quick' else n):
         yield gen_script_case(rng)
+    for _ in range(n // 3):
+        yield gen_throw_case(rng)
+    # toJson: malformed lines
+    yield ['new 0 1 1 1 1', 'new 1 0 1 1 1', 'add 0 1 1', 'json 0', 'json 1', 'json 7', 'json', 'json 0 0', 'vdef m1 a 3', 'json 0', 'vundef m1 a', 'json 0',
+           'destroy 0', 'json 0']
 
 
 
@@ -765,7 +839,8 @@ MAIN_FIXED = [
 ]
 
 
-NT_TAGS = ('init-rollback', 'start-rollback', '-ok-optfail', 'cleanup-with-stop', 'destroy-emits', 'guard-matters', 'thrown')
+NT_TAGS = ('init-rollback', 'start-rollback', '-ok-optfail', 'cleanup-with-stop', 'destroy-emits', 'guard-matters', 'thrown', 'catch-matters',
+           'add-fail-cycle')
 
 
 def nontrivial(ops, model_lines):
@@ -784,7 +859,7 @@ LEVEL_TEXT = ('Lean 4 theorems over a hand-written model of Module (tree with pe
               "module's lifecycle automaton, is LIFO-nested, and is balanced after cleanup+destroy; the model is tied to module.cpp on every "
               'run by differential execution of generated trees and call sequences (ASan+UBSan build of the working tree)')
 LEVEL_NOTE = ('trusted: Lean kernel, hand-written model + differential tie (coverage bounded by the generator, measured in evidence); '
-              'throwing hooks are outside the property; Main()/Start()/Stop() sequencing are small models (mainTrace, Backend.startB/stopB/mainSig) tied by '
+              'throwing teardown hooks are outside the property; Main()/Start()/Stop() sequencing are small models (mainTrace, Backend.startB/stopB/mainSig) tied by '
               'process scenarios of the real entry points in both tiers')
 TECHNIQUE = 'Lean 4 structural-induction proofs over a module-tree model + model/implementation correspondence check'
 DESIGN_REF = 'DESIGN.md §6 C11, §7 row 5'
